@@ -341,8 +341,10 @@ class Run:
                         same = False
                     if not same:
                         self.viol("state/columns/" + site, {"got": brief(cl, 300), "want": brief(wantc, 300)})
-        ok, arr = get("table", lambda: df[:])
-        if ok:
+        ok, arr = (True, None) if fatal else get("table", lambda: df[:])
+        if fatal:
+            pass        # names / types / counts already differ: the table comparison would repeat that
+        elif ok:
             mm = table_mismatch(m.nt, m.rows, arr)
             if mm:
                 self.viol("state/table/" + fine, {"mismatch": mm, "got": brief(arr, 300)})
@@ -710,8 +712,7 @@ class Run:
             self.viol("refusal/%s/table-changed" % what,
                       {"call": desc, "raised": raised, "changed": diff,
                        "before": brief([before[k] for k in diff], 300), "after": brief([after[k] for k in diff], 300)})
-            self.last = ("probe-" + what, "probe-" + what)
-            self.check_state()          # abandons the program when the table no longer matches the model
+            raise Abandon()             # the frame no longer corresponds to the model
         if what.endswith("-no-rows"):
             self.stat("probe:%s:%s" % (what, "refused" if raised else "accepted"))
         return "refused" if raised else "accepted"
@@ -921,7 +922,8 @@ def op_strategy():
     write_cell = st.fixed_dictionaries({"op": st.just("write_cell"), "form": st.sampled_from(["pos", "pos", "name", "name_int"]),
                                         "row": ADDR, "col": ADDR, "val": ATOM})
     units = st.fixed_dictionaries({"op": st.just("units"),
-                                   "u": st.one_of(*([st.lists(st.integers(0, 7), min_size=8, max_size=8)] * 5 + [st.none()]))})
+                                   "u": st.tuples(st.integers(0, 6), st.lists(st.integers(0, 7), min_size=8, max_size=8)).map(
+                                       lambda t: None if t[0] == 0 else t[1])})
     reopen = st.fixed_dictionaries({"op": st.just("reopen"), "ro": st.booleans()})
     read_all = st.just({"op": "read_all"})
     read_rows = st.fixed_dictionaries({"op": st.just("read_rows"), "form": st.sampled_from(["int", "list"]),
@@ -954,7 +956,7 @@ def case_strategy(draw, max_ops=16):
 
 
 def shards(tier, seed):
-    n, per, mx = (16, 75, 14) if tier == "quick" else (64, 400, 16)
+    n, per, mx = (16, 60, 14) if tier == "quick" else (64, 400, 16)
     return [{"n": per, "max_ops": mx, "seed": seed * 1000 + i} for i in range(n)]
 
 
